@@ -715,22 +715,173 @@ fn ancestor_family(ctx: &Ctx, report: &mut Report) {
 
 // =======================================================================================
 
+// ---------------------------------------------------------------------------------------
+// locator construction and common-ancestor search on a real SyncShared
+
+/// A real node holds a main chain of N blocks and a side branch forking in the middle (stored,
+/// not canonical).  Through `SyncShared::active_chain()`:
+/// - `get_locator(start)` from EVERY block of the main chain and of the side branch: the entries
+///   must be the parent-walk ancestors of `start` at the heights start, start-1, ... (ten single
+///   steps), then steps doubling, always ending with the genesis block;
+/// - `last_common_ancestor(a, b)` for every pair out of a grid of main / side blocks: the fork
+///   point by parent walk;
+/// - `locate_latest_common_block(locator)` for the locator of every side-branch block: a block both
+///   chains share, not below the highest locator entry on the main chain (soundness only).
+fn locator_family(ctx: &Ctx, report: &mut Report) {
+    use crate::forge::{BlockSpec, Forge};
+    use crate::node::{Node, NodeOpts};
+    let n_main: u64 = if ctx.tier.is_thorough() { 600 } else { 90 };
+    let n_side: u64 = if ctx.tier.is_thorough() { 80 } else { 40 };
+    let fork_at = n_main / 2 - 3;
+    let cons = consensus(&WorldOpts::default());
+    let mut go = || -> Result<(), String> {
+        set_time(time_for_height(n_main + 50));
+        let mut forge = Forge::new(&ctx.scratch.join("c17-forge"), &cons)?;
+        let mut main = vec![cons.genesis_block().clone()];
+        let mut parent = cons.genesis_hash();
+        for _ in 1..=n_main {
+            let b = forge.build_on(&parent, &BlockSpec { miner: 1, ..Default::default() })?;
+            parent = b.hash();
+            main.push(b);
+        }
+        let mut side = vec![];
+        let mut parent = main[fork_at as usize].hash();
+        for _ in 0..n_side {
+            let b = forge.build_on(&parent, &BlockSpec { miner: 2, ts_offset: 1, ..Default::default() })?;
+            parent = b.hash();
+            side.push(b);
+        }
+        let dir = ctx.scratch.join("c17-locator-node");
+        let _ = std::fs::remove_dir_all(&dir);
+        let node = Node::boot(&dir, &NodeOpts::new(cons.clone()))?;
+        node.wait_startup()?;
+        for b in main.iter().skip(1).chain(side.iter()) {
+            node.process(b).map_err(|e| format!("block {}: {e}", b.number()))?;
+        }
+        if node.tip().hash() != main.last().unwrap().hash() {
+            return Err("the main chain is not the node's main chain".into());
+        }
+        let (_tx, rx) = ckb_channel::bounded(1);
+        let sync_shared = Arc::new(ckb_sync::SyncShared::new(node.shared.clone(), Default::default(), rx));
+        let active = sync_shared.active_chain();
+        // the chain of a block, by parent walk over the delivered blocks
+        let by_hash: HashMap<Byte32, &ckb_types::core::BlockView> = main.iter().chain(side.iter()).map(|b| (b.hash(), b)).collect();
+        let chain_of = |b: &ckb_types::core::BlockView| -> Vec<Byte32> {
+            let mut v = vec![b.hash()];
+            let mut cur = b;
+            while cur.number() > 0 {
+                cur = by_hash[&cur.parent_hash()];
+                v.push(cur.hash());
+            }
+            v.reverse();
+            v
+        };
+        let label = json!({"family": "locator"});
+        for start in main.iter().chain(side.iter()) {
+            let chain = chain_of(start);
+            let res = std::panic::catch_unwind(std::panic::AssertUnwindSafe(|| active.get_locator(BlockNumberAndHash::new(start.number(), start.hash()))));
+            report.evaluations += 1;
+            report.transitions += 1;
+            let got = match res {
+                Ok(v) => v,
+                Err(_) => {
+                    report.violation("locator/panic", format!("get_locator panicked for start block {} {}", start.number(), if by_hash[&start.hash()].number() > fork_at && side.iter().any(|s| s.hash() == start.hash()) { "(side branch)" } else { "" }), label.clone());
+                    continue;
+                }
+            };
+            // the model: heights start, start-1, ... ten single steps, then the step doubles; genesis closes
+            let mut want_heights = vec![];
+            let (mut step, mut index) = (1u64, start.number());
+            loop {
+                want_heights.push(index);
+                if want_heights.len() >= 10 {
+                    step <<= 1;
+                }
+                if index < step * 2 {
+                    if index != 0 {
+                        want_heights.push(0);
+                    }
+                    break;
+                }
+                index -= step;
+            }
+            let want: Vec<Byte32> = want_heights.iter().map(|h| chain[*h as usize].clone()).collect();
+            if got != want {
+                let got_heights: Vec<String> = got.iter().map(|h| by_hash.get(h).map(|b| format!("{}{}", b.number(), if chain.get(b.number() as usize) == Some(h) { "" } else { "(other branch)" })).unwrap_or_else(|| "?".into())).collect();
+                report.violation("locator/differs-from-parent-walk", format!("get_locator from block {} on the {}: entries at heights {:?}, the parent walk gives heights {:?} of the start block's own chain", start.number(), if side.iter().any(|s| s.hash() == start.hash()) { "side branch" } else { "main chain" }, got_heights, want_heights), label.clone());
+            } else {
+                report.nontrivial.insert(fp(&("locator", start.hash().as_slice().to_vec())));
+            }
+            report.states.insert(fp(&("locator", start.number(), want.len())));
+            // a locator built on the side branch finds the fork point
+            if side.iter().any(|s| s.hash() == start.hash()) {
+                let found = active.locate_latest_common_block(&Byte32::zero(), &got);
+                report.evaluations += 1;
+                // (the statement names locator construction, not this search: it is judged for soundness
+                // only - the answer is a block both chains share, and not below the highest locator entry
+                // on the main chain; answering the genesis block when the first shared locator entry is
+                // the genesis block is what the code documents)
+                let best_entry = got.iter().filter_map(|h| by_hash.get(h)).filter(|b| b.number() <= fork_at && main[b.number() as usize].hash() == b.hash()).map(|b| b.number()).max();
+                match found {
+                    Some(k) if k <= fork_at && Some(k) >= best_entry => {
+                        if k == fork_at {
+                            report.count("locate_latest_common_block_exact", 1);
+                        } else {
+                            report.count("locate_latest_common_block_below_the_fork_point", 1);
+                        }
+                    }
+                    other => report.violation("locator/latest-common-block", format!("locate_latest_common_block for the locator of side block {} answers {other:?}; the branch forks at {fork_at}, the highest locator entry on the main chain is {best_entry:?}", start.number()), label.clone()),
+                }
+            }
+        }
+        // last common ancestor over a grid of pairs
+        let grid: Vec<&ckb_types::core::BlockView> = main.iter().step_by(7).chain(main.iter().skip(fork_at as usize - 2).take(5)).chain(side.iter().step_by(5)).chain(side.iter().take(3)).collect();
+        for a in &grid {
+            for b in &grid {
+                let (ca, cb) = (chain_of(a), chain_of(b));
+                let mut k = 0;
+                while k < ca.len() && k < cb.len() && ca[k] == cb[k] {
+                    k += 1;
+                }
+                let want = BlockNumberAndHash::new(k as u64 - 1, ca[k - 1].clone());
+                let got = active.last_common_ancestor(&BlockNumberAndHash::new(a.number(), a.hash()), &BlockNumberAndHash::new(b.number(), b.hash()));
+                report.evaluations += 1;
+                if got.as_ref() != Some(&want) {
+                    report.violation("locator/last-common-ancestor", format!("last_common_ancestor(block {} {}, block {} {}) = {:?}, the parent walk gives block {}", a.number(), a.hash(), b.number(), b.hash(), got.map(|x| x.number()), want.number()), label.clone());
+                }
+            }
+        }
+        report.outcomes.insert(fp(&"locator"));
+        report.outcomes.insert(fp(&"lca"));
+        report.traces += 1;
+        report.count("locator_starts", (main.len() + side.len()) as u64);
+        drop(active);
+        drop(sync_shared);
+        node.shutdown();
+        Ok(())
+    };
+    if let Err(e) = go() {
+        report.machinery_errors.push(format!("locator family: {e}"));
+    }
+}
+
 pub fn meta(tier: Tier) -> Meta {
     Meta {
         id: "C17",
         level: "model_checking",
-        rule: "four explicit-state searches on the real structures; a state is the operation history reaching it (replayed on a fresh object) and states are merged only when the structure's complete dumped state (and the reference model's) agree. orphan: every labelled forest of n blocks over two absent roots, ops insert/remove_blocks_by_parent(any node)/clean_expired(4 epochs), explored to the FIXPOINT of reachable states; inflight: 3 peers x 4 blocks (two at one height, one outside the prune window), faked clock with +1ms/+timeout-1/+timeout+1, every op checked as a relation between the dumped pre- and post-state, BFS to the stated depth; headermap: every sequence of insert/get/contains/remove over 4 keys + spill, limit 2 items, real sled backend, against a BTreeMap; ancestor: every (from,to) pair on a chain and from fork branches at every fork point, with and without the main-chain shortcut, against a parent walk. non-trivial: forest with depth>=2 / history with >=2 inserts and a release / history with a spill after >=3 inserts / each ancestor family.",
+        rule: "locator: a real node with a main chain and a stored side branch forking in the middle; ActiveChain::get_locator from every block of both branches against the parent walk (heights start, start-1, ... ten single steps, then doubling, genesis last), last_common_ancestor over a grid of pairs against the fork point by parent walk. Four explicit-state searches on the real structures; a state is the operation history reaching it (replayed on a fresh object) and states are merged only when the structure's complete dumped state (and the reference model's) agree. orphan: every labelled forest of n blocks over two absent roots, ops insert/remove_blocks_by_parent(any node)/clean_expired(4 epochs), explored to the FIXPOINT of reachable states; inflight: 3 peers x 4 blocks (two at one height, one outside the prune window), faked clock with +1ms/+timeout-1/+timeout+1, every op checked as a relation between the dumped pre- and post-state, BFS to the stated depth; headermap: every sequence of insert/get/contains/remove over 4 keys + spill, limit 2 items, real sled backend, against a BTreeMap; ancestor: every (from,to) pair on a chain and from fork branches at every fork point, with and without the main-chain shortcut, against a parent walk. non-trivial: forest with depth>=2 / history with >=2 inserts and a release / history with a spill after >=3 inserts / each ancestor family.",
         assumptions: &[
             "children of one orphan parent share an epoch (expiry looks at one arbitrary child)",
             "release below a parent that is itself held is not judged beyond 'returned blocks are descendants'",
             "in-flight records whose peer no longer lists them (after prune evicts an idle scheduler) are counted, not judged: the statement does not demand the converse",
-            "locator construction is exercised on a real chain only in thorough mode",
+            "locate_latest_common_block is judged for soundness only (a shared block, not below the highest shared locator entry)",
         ],
         bounds: json!({
             "orphan_blocks": 5,
             "inflight_depth": if tier.is_thorough() { 6 } else { 5 },
             "headermap_length": if tier.is_thorough() { 6 } else { 5 },
             "ancestor_chain": if tier.is_thorough() { 1024 } else { 300 },
+            "locator_main_chain": if tier.is_thorough() { 600 } else { 90 },
         }),
     }
 }
@@ -745,6 +896,7 @@ pub fn run(ctx: &Ctx) -> Report {
             "orphan" => orphan_family(ctx, &mut report, Some((serde_json::from_value(v["parent"].clone()).unwrap(), serde_json::from_value(v["history"].clone()).unwrap()))),
             "inflight" => inflight_family(ctx, &mut report, Some(serde_json::from_value(v["history"].clone()).unwrap())),
             "headermap" => headermap_family(ctx, &mut report, Some(serde_json::from_value(v["history"].clone()).unwrap()), false),
+            "locator" => locator_family(ctx, &mut report),
             _ => ancestor_family(ctx, &mut report),
         }
         return report;
@@ -753,7 +905,7 @@ pub fn run(ctx: &Ctx) -> Report {
     match ctx.shard % 4 {
         0 if ctx.shard == 0 => orphan_family(ctx, &mut report, None),
         1 if ctx.shard == 1 => inflight_family(ctx, &mut report, None),
-        2 if ctx.shard == 2 => {}
+        2 if ctx.shard == 2 => locator_family(ctx, &mut report),
         3 if ctx.shard == 3 => ancestor_family(ctx, &mut report),
         _ => {}
     }
